@@ -131,6 +131,9 @@ class Oracle:
     def on_edit(self, ctx, op, out):
         pass
 
+    def before_write(self, ctx):
+        pass
+
     def on_write(self, ctx, disk, wf):
         pass
 
@@ -255,6 +258,7 @@ def _restart(ctx, oracle, op):
     d = ctx.d
     disk = SimDisk('gen%d' % len(d.disks), b'', ctx.world.next_seq)
     wf = RecordingFile(disk, 'wb')
+    oracle.before_write(ctx)
     ctx.world.clock.take_readings()
     try:
         d.iso.write_fp(wf, d.blocksize)
